@@ -313,6 +313,15 @@ def localSection (verts : List (V3 K)) (tris : List Tri) (n : V3 K) (bias eps : 
     | none => none
     | some st => some (.intersect st.verts.toList (orient st.adj))
 
+/-- `TriMesh::intersection_with_plane(position, axis, bias, epsilon)`: the local routine on the transferred plane -/
+def sectionPos (verts : List (V3 K)) (tris : List Tri) (pos : Iso3 K) (axis : V3 K) (bias eps : K) : Option (Result K) :=
+  let (la, lb) := planeToLocal pos axis bias
+  localSection verts tris la lb eps
+
+/-- `TriMesh::canonical_intersection_with_plane(axis, bias, epsilon)` -/
+def sectionCanonical (verts : List (V3 K)) (tris : List Tri) (i : Fin 3) (bias eps : K) : Option (Result K) :=
+  localSection verts tris (ithAxis i) bias eps
+
 end Section
 
 /-! ## `clip_segment_segment_with_normal` (clip_segment_segment.rs, 2-D crate only) -/
